@@ -55,7 +55,7 @@ def main(pat):
         json.dump(rec, open(os.path.join(d, "verification.json"), "w"), indent=1)
         meta = json.load(open(os.path.join(d, "meta.json")))
         desc = re.sub(r"\s+", " ", (meta.get("description") or "")).replace("|", "/")[:150]
-        benign = meta.get("kind") == "benign" or "-b" in seed
+        benign = meta.get("kind") == "benign" or "-b" in seed or re.search(r"-c\d$", seed) is not None
         for k, v in checks.items():
             if benign:
                 tie = ""
